@@ -1,5 +1,485 @@
-//! C20 — imported pages (placeholder).
+//! C20 — a page imported into another document is equal and self-contained.
+use crate::engine::bytes::{from_hex, to_hex, Bytes};
+use crate::engine::corpus;
+use crate::engine::docgen;
+use crate::engine::errs;
+use crate::engine::isolate::{self, Reply};
+use crate::engine::panics;
+use crate::engine::reader::Reader;
+use crate::engine::runner::{CaseInfo, Ctx, Failure};
+use crate::engine::val::{canon, Canon, Val};
+use crate::props::c08::{describe, descs_equal, OpDesc};
+use pdf::build::{CatalogBuilder, Importer, PageBuilder, PdfBuilder};
+use pdf::content::{Color, Op};
+use pdf::file::FileOptions;
+use pdf::object::*;
+use pdf::primitive::{Dictionary, Primitive};
+use proptest::prelude::*;
 use serde_json::{json, Value};
-pub fn import_job(_h: &Value, _blob: &[u8]) -> Value {
-    json!({"harness_error": "import job not implemented"})
+use std::time::Duration;
+
+/// Value with references followed (streams: dictionary + raw data); revisits and depth overruns become markers.
+fn deep<R: Resolve>(r: &R, p: &Primitive, path: &mut Vec<u64>, budget: &mut usize) -> Val {
+    if *budget == 0 {
+        return Val::name("@budget");
+    }
+    *budget -= 1;
+    match p {
+        Primitive::Reference(x) => {
+            if path.contains(&x.id) {
+                return Val::name("@cycle");
+            }
+            if path.len() > 10 {
+                return Val::name("@deep");
+            }
+            match r.resolve(*x) {
+                Ok(t) => {
+                    path.push(x.id);
+                    let v = deep(r, &t, path, budget);
+                    path.pop();
+                    v
+                }
+                Err(_) => Val::name("@missing"),
+            }
+        }
+        Primitive::Array(a) => Val::Array(a.iter().map(|x| deep(r, x, path, budget)).collect()),
+        Primitive::Dictionary(d) => Val::Dict(deep_dict(r, d, path, budget)),
+        Primitive::Stream(s) => {
+            let mut d = deep_dict(r, &s.info, path, budget);
+            d.retain(|(k, _)| k.as_slice() != b"Length");
+            let data = s.raw_data(r).map(|d| d.to_vec()).unwrap_or_else(|_| b"@unreadable".to_vec());
+            Val::Stream(d, Bytes(data))
+        }
+        other => crate::engine::val::from_primitive_nr(other),
+    }
 }
+fn deep_dict<R: Resolve>(r: &R, d: &Dictionary, path: &mut Vec<u64>, budget: &mut usize) -> Vec<(Bytes, Val)> {
+    // /Parent and /P point back up the tree: follow neither (they are context, not content)
+    d.iter().filter(|(k, _)| !matches!(k.as_str(), "Parent" | "P" | "StructParent" | "StructParents")).map(|(k, v)| (Bytes(k.as_str().as_bytes().to_vec()), deep(r, v, path, budget))).collect()
+}
+
+/// The page's resource dictionary (own or inherited), raw.
+fn raw_resources<R: Resolve>(r: &R, page_id: u64) -> Option<Dictionary> {
+    let mut cur = page_id;
+    for _ in 0..20 {
+        let d = match r.resolve(PlainRef { id: cur, gen: 0 }).ok()? {
+            Primitive::Dictionary(d) => d,
+            _ => return None,
+        };
+        if let Some(res) = d.get("Resources") {
+            return res.clone().resolve(r).ok()?.into_dictionary().ok();
+        }
+        match d.get("Parent") {
+            Some(Primitive::Reference(p)) => cur = p.id,
+            _ => return None,
+        }
+    }
+    None
+}
+fn raw_entry<R: Resolve>(r: &R, res: &Dictionary, category: &str, name: &str) -> Option<Primitive> {
+    let cat = res.get(category)?.clone().resolve(r).ok()?.into_dictionary().ok()?;
+    cat.get(name).cloned()
+}
+
+/// (category, name) pairs the operations use.
+fn used_resources(ops: &[Op]) -> Vec<(&'static str, String)> {
+    let mut out: Vec<(&'static str, String)> = Vec::new();
+    let mut push = |c: &'static str, n: &str| {
+        if !out.iter().any(|(a, b)| *a == c && b == n) {
+            out.push((c, n.to_string()));
+        }
+    };
+    for op in ops {
+        match op {
+            Op::GraphicsState { name } => push("ExtGState", name.as_str()),
+            Op::TextFont { name, .. } => push("Font", name.as_str()),
+            Op::XObject { name } => push("XObject", name.as_str()),
+            Op::FillColorSpace { name } | Op::StrokeColorSpace { name } => {
+                if !matches!(name.as_str(), "DeviceGray" | "DeviceRGB" | "DeviceCMYK" | "Pattern") {
+                    push("ColorSpace", name.as_str());
+                }
+            }
+            Op::FillColor { color: Color::Other(args) } | Op::StrokeColor { color: Color::Other(args) } => {
+                if let Some(Primitive::Name(n)) = args.last() {
+                    push("Pattern", n.as_str());
+                }
+            }
+            Op::Shade { name } => push("Shading", name.as_str()),
+            Op::BeginMarkedContent { properties: Some(Primitive::Name(n)), .. } | Op::MarkedContentPoint { properties: Some(Primitive::Name(n)), .. } => push("Properties", n.as_str()),
+            _ => {}
+        }
+    }
+    out
+}
+
+fn fail(key: &str, msg: String) -> Value {
+    json!({"failure": {"key": format!("c20:{}", key), "msg": msg}})
+}
+
+/// Executed in a worker: import the given pages of the source into a new document, reload it, compare.
+pub fn import_job(h: &Value, blob: &[u8]) -> Value {
+    let pw = h["password"].as_str().and_then(from_hex).unwrap_or_default();
+    let pages: Vec<u32> = h["pages"].as_array().map(|a| a.iter().filter_map(|x| x.as_u64()).map(|x| x as u32).collect()).unwrap_or_default();
+    let mut labels: Vec<String> = Vec::new();
+    let skip: Vec<String> = h["skip_categories"].as_array().map(|a| a.iter().filter_map(|x| x.as_str().map(|s| s.to_string())).collect()).unwrap_or_default();
+    let res = panics::catch(|| -> Result<Value, pdf::error::PdfError> {
+        let old = match FileOptions::cached().password(&pw).load(blob.to_vec()) {
+            Ok(f) => f,
+            Err(e) => return Ok(json!({"skipped": format!("source does not load: {}", errs::root_kind(&e))})),
+        };
+        let old_r = old.resolver();
+        let mut src_pages = Vec::new();
+        for &i in &pages {
+            match old.get_page(i) {
+                Ok(p) => src_pages.push(p),
+                Err(e) => return Ok(json!({"skipped": format!("source page {} does not load: {}", i, errs::root_kind(&e))})),
+            }
+        }
+        // ---- import
+        let mut builder = PdfBuilder::new(FileOptions::cached());
+        let mut new_pages = Vec::new();
+        {
+            let mut importer = Importer::new(old.resolver(), &mut builder.storage);
+            for p in &src_pages {
+                match PageBuilder::clone_page(p, &mut importer) {
+                    Ok(b) => new_pages.push(b),
+                    // the property speaks about imports that succeed
+                    Err(e) => return Ok(json!({"skipped": format!("import refused: {}", errs::root_kind(&e)), "import_refused": true})),
+                }
+            }
+        }
+        let bytes = match builder.build(CatalogBuilder::from_pages(new_pages)) {
+            Ok(b) => {
+                if let Ok(path) = std::env::var("VH_C20_DUMP") {
+                    let _ = std::fs::write(path, &b);
+                }
+                b
+            }
+            Err(e) => return Ok(json!({"skipped": format!("build refused: {}", errs::root_kind(&e)), "import_refused": true})),
+        };
+        // ---- every reference of the new document points into the new document
+        match Reader::load(&bytes) {
+            Err(m) => return Ok(fail("new-document-unreadable", format!("independent reader: {}", m))),
+            Ok(rd) => {
+                if let Some(p) = rd.validate().into_iter().find(|m| m.contains("refers to object") || m.contains("points at offset") || m.contains("/Length")) {
+                    let key = if p.contains("refers to object") { "dangling-reference-in-new-document" } else if p.contains("/Length") { "new-document-stream-length" } else { "new-document-xref-entry" };
+                    return Ok(fail(key, p));
+                }
+            }
+        }
+        let new = match FileOptions::cached().load(bytes.clone()) {
+            Ok(f) => f,
+            Err(e) => return Ok(fail(&format!("new-document-does-not-load:{}", errs::root_kind(&e)), format!("{:?}", e))),
+        };
+        let new_r = new.resolver();
+        if new.num_pages() as usize != src_pages.len() {
+            return Ok(fail("page-count", format!("{} pages imported, new document has {}", src_pages.len(), new.num_pages())));
+        }
+        let mut shared_src: std::collections::HashMap<(String, String, u64), Vec<usize>> = Default::default();
+        let mut new_refs: std::collections::HashMap<(usize, String, String), u64> = Default::default();
+        for (k, sp) in src_pages.iter().enumerate() {
+            let np = match new.get_page(k as u32) {
+                Ok(p) => p,
+                Err(e) => return Ok(fail("new-page-error", format!("page {}: {:?}", k, e))),
+            };
+            // boxes and rotation
+            let (sm, nm) = (sp.media_box().ok(), np.media_box().ok());
+            let (sc, nc) = (sp.crop_box().ok(), np.crop_box().ok());
+            let r4 = |b: &Option<Rectangle>| b.map(|b| (b.left.to_bits(), b.bottom.to_bits(), b.right.to_bits(), b.top.to_bits()));
+            if r4(&sm) != r4(&nm) || r4(&sc) != r4(&nc) || r4(&sp.trim_box) != r4(&np.trim_box) {
+                return Ok(fail("boxes", format!("page {}: source media {:?} crop {:?} trim {:?}; new media {:?} crop {:?} trim {:?}", pages[k], sm, sc, sp.trim_box, nm, nc, np.trim_box)));
+            }
+            if sp.rotate != np.rotate {
+                return Ok(fail("rotate", format!("page {}: {} vs {}", pages[k], sp.rotate, np.rotate)));
+            }
+            // operations
+            let sops = match sp.contents.as_ref().map(|c| c.operations(&old_r)).transpose() {
+                Ok(o) => o.unwrap_or_default(),
+                Err(_) => return Ok(json!({"skipped": "source operations do not parse"})),
+            };
+            let nops = match np.contents.as_ref().map(|c| c.operations(&new_r)).transpose() {
+                Ok(o) => o.unwrap_or_default(),
+                Err(e) => return Ok(fail("new-operations-error", format!("page {}: {:?}", pages[k], e))),
+            };
+            let a: Vec<OpDesc> = sops.iter().filter(|o| !matches!(o, Op::InlineImage { .. })).map(describe).collect();
+            let b: Vec<OpDesc> = nops.iter().filter(|o| !matches!(o, Op::InlineImage { .. })).map(describe).collect();
+            if let Some(d) = descs_equal(&a, &b) {
+                return Ok(fail("operations", format!("page {}: {}", pages[k], d)));
+            }
+            // resources used by the operations
+            let used = used_resources(&sops);
+            if !used.is_empty() {
+                labels.push("uses-named-resource".into());
+            }
+            let sres = raw_resources(&old_r, sp.get_ref().get_inner().id).unwrap_or_default();
+            let nres = raw_resources(&new_r, np.get_ref().get_inner().id).unwrap_or_default();
+            for (cat, name) in used {
+                let Some(se) = raw_entry(&old_r, &sres, cat, &name) else { continue };
+                labels.push(format!("resource/{}", cat));
+                if let Primitive::Reference(x) = &se {
+                    shared_src.entry((cat.to_string(), name.clone(), x.id)).or_default().push(k);
+                }
+                let Some(ne) = raw_entry(&new_r, &nres, cat, &name) else {
+                    if skip.iter().any(|c| c == cat) {
+                        // open finding for this resource category: counted, and the rest of the page is still compared
+                        labels.push(format!("excluded-by-gate/resource-missing:{}", cat));
+                        continue;
+                    }
+                    return Ok(fail(&format!("resource-missing:{}", cat), format!("page {}: the operations use /{} {} but the imported page has no such resource", pages[k], cat, name)));
+                };
+                if let Primitive::Reference(x) = &ne {
+                    new_refs.insert((k, cat.to_string(), name.clone()), x.id);
+                }
+                let (mut b1, mut b2) = (4000usize, 4000usize);
+                let sv = deep(&old_r, &se, &mut vec![], &mut b1);
+                let nv = deep(&new_r, &ne, &mut vec![], &mut b2);
+                if matches!(sv, Val::Stream(..)) {
+                    labels.push("resource-with-stream".into());
+                }
+                if b1 > 0 && b2 > 0 {
+                    if let Some(diff) = first_difference(&canon(&sv), &canon(&nv), "") {
+                        return Ok(fail(&format!("resource-differs:{}", cat), format!("page {}: /{} {}: {}", pages[k], cat, name, diff)));
+                    }
+                }
+            }
+        }
+        // shared source objects are copied once
+        for ((cat, name, _src_id), users) in shared_src.iter().filter(|(_, u)| u.len() >= 2) {
+            labels.push("shared-resource".into());
+            let ids: Vec<Option<&u64>> = users.iter().map(|k| new_refs.get(&(*k, cat.clone(), name.clone()))).collect();
+            // (categories whose typed model holds the value inline, e.g. ExtGState, have no object to share)
+            if ids.iter().all(|i| i.is_none()) {
+                continue;
+            }
+            if ids.iter().any(|i| i.is_none()) || ids.windows(2).any(|w| w[0] != w[1]) {
+                return Ok(fail("shared-object-copied-more-than-once", format!("/{} {} is one object in the source for pages {:?}, but the new document has objects {:?}", cat, name, users, ids)));
+            }
+        }
+        Ok(json!({"ok": true}))
+    });
+    let mut reply = match res {
+        Ok(Ok(v)) => v,
+        Ok(Err(e)) => json!({"skipped": format!("error: {}", errs::root_kind(&e))}),
+        Err(p) => json!({"failure": {"key": if p.in_lib { p.key() } else { format!("harness-{}", p.key()) }, "msg": format!("panic at {}:{} in {}: {}", p.file, p.line, p.func, p.msg)}}),
+    };
+    labels.sort();
+    labels.dedup();
+    reply["labels"] = json!(labels);
+    reply
+}
+
+/// Where two canonical values differ first (entries that only state a default are ignored, see is_default_entry).
+fn first_difference(a: &Canon, b: &Canon, path: &str) -> Option<String> {
+    // /Filter and /DecodeParms may be given as a single value or as a one-element array: the same thing
+    if path.ends_with("/Filter") || path.ends_with("/DecodeParms") {
+        let unwrap1 = |c: &Canon| -> Canon {
+            match c {
+                Canon::Array(v) if v.len() == 1 => v[0].clone(),
+                other => other.clone(),
+            }
+        };
+        let (a1, b1) = (unwrap1(a), unwrap1(b));
+        if a1 != *a || b1 != *b {
+            return first_difference(&a1, &b1, &format!("{}[0]", path));
+        }
+    }
+    match (a, b) {
+        (Canon::Dict(x), Canon::Dict(y)) => dict_diff(x, y, path),
+        (Canon::Stream(x, dx), Canon::Stream(y, dy)) => {
+            if let Some(d) = dict_diff(x, y, path) {
+                return Some(d);
+            }
+            if dx != dy {
+                return Some(format!("{}: stream data differs ({} vs {} bytes)", path, dx.len(), dy.len()));
+            }
+            None
+        }
+        (Canon::Array(x), Canon::Array(y)) => {
+            if x.len() != y.len() {
+                return Some(format!("{}: array length {} vs {}", path, x.len(), y.len()));
+            }
+            x.iter().zip(y).enumerate().find_map(|(i, (p, q))| first_difference(p, q, &format!("{}[{}]", path, i)))
+        }
+        (p, q) if p == q => None,
+        (p, q) => Some(format!("{}: source {:?}, imported {:?}", path, trunc(p), trunc(q))),
+    }
+}
+fn trunc(c: &Canon) -> String {
+    let s = format!("{:?}", c);
+    s.chars().take(120).collect()
+}
+/// An entry that only spells out the specification's default (or an empty collection) carries no content:
+/// the typed re-serialisation adds or drops such entries, which leaves the resource equal.
+fn is_default_entry(path: &str, key: &[u8], v: &Canon) -> bool {
+    let in_parms = path.contains("/DecodeParms");
+    match (key, v) {
+        (_, Canon::Dict(d)) if d.iter().all(|(k2, v2)| is_default_entry(&format!("{}/{}", path, String::from_utf8_lossy(key)), k2, v2)) => true,
+        (_, Canon::Array(a)) if a.is_empty() => true,
+        (b"FormType", Canon::Num(n)) => *n == 1.0,
+        (b"ImageMask", Canon::Bool(false)) | (b"Interpolate", Canon::Bool(false)) => true,
+        (b"Predictor", Canon::Num(n)) | (b"Colors", Canon::Num(n)) | (b"Columns", Canon::Num(n)) | (b"EarlyChange", Canon::Num(n)) if in_parms => *n == 1.0,
+        (b"BitsPerComponent", Canon::Num(n)) if in_parms => *n == 8.0,
+        (b"DecodeParms", Canon::Array(a)) => a.iter().all(|x| matches!(x, Canon::Null) || matches!(x, Canon::Dict(d) if d.is_empty())),
+        // an optional /Type that states the obvious
+        (b"Type", Canon::Name(n)) => matches!(n.as_slice(), b"XObject" | b"Font" | b"ExtGState" | b"FontDescriptor" | b"Pattern" | b"Encoding"),
+        (b"F", Canon::Num(n)) | (b"Rotate", Canon::Num(n)) => *n == 0.0,
+        _ => false,
+    }
+}
+
+fn dict_diff(x: &[(Vec<u8>, Canon)], y: &[(Vec<u8>, Canon)], path: &str) -> Option<String> {
+    for (k, v) in x {
+        let kp = format!("{}/{}", path, String::from_utf8_lossy(k));
+        match y.iter().find(|(k2, _)| k2 == k) {
+            None if is_default_entry(path, k, v) => {}
+            None => return Some(format!("{}: entry lost by the import (source {})", kp, trunc(v))),
+            Some((_, w)) => {
+                if let Some(d) = first_difference(v, w, &kp) {
+                    return Some(d);
+                }
+            }
+        }
+    }
+    for (k, w) in y {
+        if !x.iter().any(|(k2, _)| k2 == k) && !is_default_entry(path, k, w) {
+            return Some(format!("{}/{}: entry invented by the import ({})", path, String::from_utf8_lossy(k), trunc(w)));
+        }
+    }
+    None
+}
+
+pub fn check(data: &[u8], pw: &[u8], pages: &[u32], name: &str, skip: &[String], info: &mut CaseInfo) -> Result<(), Failure> {
+    let art = || json!({"source": Bytes::new(data), "password": Bytes::new(pw), "pages": pages, "name": name});
+    let header = json!({"kind": "import", "password": to_hex(pw), "pages": pages, "skip_categories": skip});
+    match isolate::request(&header, data, Duration::from_secs(60)) {
+        Reply::Timeout { seconds } => Err(Failure::new("c20:import-does-not-return", format!("{} pages {:?}: no answer within {} s", name, pages, seconds), art())),
+        Reply::Died { signal, code, stderr_tail } => {
+            let what = if stderr_tail.contains("overflowed its stack") { "stack-overflow" } else if stderr_tail.contains("memory allocation") { "allocation-failure" } else { "abort" };
+            Err(Failure::new(format!("c20:crash:{}", what), format!("{} pages {:?}: worker died (signal {:?}, code {:?}): {}", name, pages, signal, code, stderr_tail), art()))
+        }
+        Reply::Ok(r) => {
+            if let Some(l) = r["labels"].as_array() {
+                for x in l {
+                    let l = x.as_str().unwrap_or("");
+                    if let Some(g) = l.strip_prefix("excluded-by-gate/") {
+                        info.excluded.push(g.to_string());
+                    } else {
+                        info.label(l.to_string());
+                    }
+                }
+            }
+            if let Some(f) = r.get("failure") {
+                return Err(Failure::new(f["key"].as_str().unwrap_or("c20:?").to_string(), format!("{} pages {:?}: {}", name, pages, f["msg"].as_str().unwrap_or("")), art()));
+            }
+            if let Some(s) = r.get("skipped") {
+                info.label(format!("skipped/{}", s.as_str().unwrap_or("").split(':').next().unwrap_or("")));
+                info.nontrivial(false);
+            } else {
+                info.label("imported");
+                info.nontrivial(info.labels.iter().any(|l| l == "uses-named-resource"));
+            }
+            if let Some(e) = r.get("harness_error") {
+                return Err(Failure::new("harness-worker", e.to_string(), json!({})));
+            }
+            Ok(())
+        }
+    }
+}
+
+pub fn replay(_ctx: &Ctx, _check: &str, art: &Value, info: &mut CaseInfo) -> Result<(), Failure> {
+    let data: Bytes = serde_json::from_value(art["source"].clone()).map_err(|e| Failure::new("harness-bad-artifact", e.to_string(), json!({})))?;
+    let pw: Bytes = serde_json::from_value(art["password"].clone()).unwrap_or_default();
+    let pages: Vec<u32> = serde_json::from_value(art["pages"].clone()).unwrap_or_default();
+    check(&data, &pw, &pages, art["name"].as_str().unwrap_or("replay"), &[], info)
+}
+
+pub const GATED: [&str; 4] = ["ColorSpace", "Pattern", "Shading", "Properties"];
+
+pub fn run(ctx: &Ctx) {
+    let files = corpus::load(&ctx.verif_dir, false);
+    let skip: Vec<String> = GATED.iter().filter(|c| ctx.known.is_open("C20", &format!("c20:resource-missing:{}", c))).map(|c| c.to_string()).collect();
+    // focused probes for the gated categories: a page whose content names a resource of that category
+    for cat in GATED {
+        ctx.run_one("probe-resource-category", cat, |info| {
+            let file = probe_document(cat);
+            info.nontrivial(true);
+            check(&file, b"", &[0], &format!("probe-{}", cat), &[], info)
+        });
+    }
+    // 1. every page of every corpus file alone, and small ordered subsets
+    let mut jobs: Vec<(usize, Vec<u32>)> = Vec::new();
+    for (fi, f) in files.iter().enumerate() {
+        let n = match FileOptions::uncached().password(&f.password).load(f.data.clone()) {
+            Ok(file) => file.num_pages().min(ctx.tier.pick(6, 40) as u32),
+            Err(_) => 0,
+        };
+        for i in 0..n {
+            jobs.push((fi, vec![i]));
+        }
+        for i in 0..n.min(3) {
+            for j in 0..n.min(3) {
+                if i != j {
+                    jobs.push((fi, vec![i, j]));
+                }
+            }
+        }
+        if n >= 1 {
+            jobs.push((fi, vec![0, 0]));
+        }
+    }
+    ctx.run_enum(
+        "corpus-pages",
+        jobs.len() as u64,
+        |k| jobs[k as usize].clone(),
+        |(fi, pages), info| {
+            let f = &files[*fi];
+            info.label(format!("file/{}", f.name));
+            info.distinct((&f.name, pages));
+            info.sample = Some(json!({"file": f.name, "pages": pages}));
+            check(&f.data, &f.password, pages, &f.name, &skip, info)
+        },
+    );
+    // 2. generated documents (shared fonts/XObjects between pages, nested forms, compressed and encrypted sources)
+    let cases = ctx.tier.pick(400, 30_000);
+    ctx.run_cases(
+        "generated-documents",
+        cases,
+        || (docgen::spec_strategy(), proptest::collection::vec(0u32..3, 1..4)),
+        |(spec, sel), info| {
+            let b = docgen::build(spec);
+            let pages: Vec<u32> = sel.iter().map(|s| s % b.n_pages as u32).collect();
+            for l in &b.labels {
+                if l.starts_with("encrypt/") || l.starts_with("storage/") {
+                    info.label(l.clone());
+                }
+            }
+            info.distinct((&b.file, &pages));
+            info.sample = Some(json!({"generated": b.labels, "pages": pages}));
+            check(&b.file, &b.password, &pages, "generated", &skip, info)
+        },
+    );
+}
+
+/// A one-page document whose content uses one named resource of the given category.
+pub fn probe_document(cat: &str) -> Vec<u8> {
+    use crate::engine::writer::Writer;
+    let n = Val::name;
+    let r = |x: u64| Val::Ref(x, 0);
+    let (content, res): (&[u8], Val) = match cat {
+        "ColorSpace" => (b"/CS1 cs 0.5 sc 0 0 10 10 re f", Val::dict(vec![("ColorSpace", Val::dict(vec![("CS1", Val::Array(vec![n("Indexed"), n("DeviceRGB"), Val::Int(1), Val::str(&[0, 0, 0, 255, 255, 255])]))]))])),
+        "Pattern" => (b"/Pattern cs /P1 scn 0 0 10 10 re f", Val::dict(vec![("Pattern", Val::dict(vec![("P1", r(6))]))])),
+        "Shading" => (b"/Sh1 sh", Val::dict(vec![("Shading", Val::dict(vec![("Sh1", Val::dict(vec![("ShadingType", Val::Int(2)), ("ColorSpace", n("DeviceGray")), ("Coords", Val::Array(vec![Val::Int(0), Val::Int(0), Val::Int(1), Val::Int(1)])), ("Function", Val::dict(vec![("FunctionType", Val::Int(2)), ("Domain", Val::Array(vec![Val::Int(0), Val::Int(1)])), ("N", Val::Int(1))]))]))]))])),
+        _ => (b"/Tag /MC1 BDC EMC", Val::dict(vec![("Properties", Val::dict(vec![("MC1", Val::dict(vec![("Kind", n("Layer"))]))]))])),
+    };
+    let mut w = Writer::new(b"", "1.4");
+    w.obj(1, 0, &Val::dict(vec![("Type", n("Catalog")), ("Pages", r(2))]));
+    w.obj(2, 0, &Val::dict(vec![("Type", n("Pages")), ("Kids", Val::Array(vec![r(3)])), ("Count", Val::Int(1))]));
+    w.obj(3, 0, &Val::dict(vec![("Type", n("Page")), ("Parent", r(2)), ("MediaBox", Val::Array(vec![Val::Int(0), Val::Int(0), Val::Int(100), Val::Int(100)])), ("Resources", res), ("Contents", r(4))]));
+    w.stream_obj(4, 0, &[], content);
+    w.stream_obj(6, 0, &[(Bytes::from("Type"), n("Pattern")), (Bytes::from("PatternType"), Val::Int(1)), (Bytes::from("PaintType"), Val::Int(1)), (Bytes::from("TilingType"), Val::Int(1)), (Bytes::from("BBox"), Val::Array(vec![Val::Int(0), Val::Int(0), Val::Int(5), Val::Int(5)])), (Bytes::from("XStep"), Val::Int(5)), (Bytes::from("YStep"), Val::Int(5)), (Bytes::from("Resources"), Val::dict(vec![]))], b"0 0 2 2 re f");
+    w.free(0, 0, 65535);
+    w.xref_table(7, &[(Bytes::from("Root"), r(1))], false);
+    w.finish()
+}
+
+pub const RULE: &str = "cases = (source document, ordered list of 1-3 page indices, repeats allowed): every page of every corpus file alone and in small ordered subsets, and pages of generated documents (pages sharing fonts, images and a form XObject with its own resources, object streams, encryption); the pages are imported with one Importer into a PdfBuilder document, built, and reloaded - all inside a worker process; oracle (only when import and build return Ok) = page count; boxes and rotation equal; operation sequences equal (C08 equality); for every resource name the operations use (ExtGState, Font, XObject, ColorSpace, Pattern, Shading, Properties) the imported resource with references followed (dictionaries and raw stream data) equals the source's; the independent reader finds no dangling reference in the new file; a source object shared by two imported pages is one object in the new file; the worker neither panics, dies nor times out; non-trivial = the page's operations use a named resource; distinct by (source, pages)";
